@@ -92,6 +92,40 @@ class Ctx:
         self.rules.append(r)
         return r
 
+    def include(self, other_pid, why, skip=()):
+        """run another property's rules as rules of this property (ids `<this>.<other>.<rule>`): used where this
+        property quantifies over every shape and backend and therefore *needs* the other one - a renderer that skips
+        tiles on interval evidence is right only if interval evaluation encloses, traces are what simplification
+        assumes, and the per-pixel evaluators compute the expression.  `skip`: rule ids of the other property that
+        concern code this property does not reach."""
+        import importlib
+
+        parent = self
+
+        class _Sub:
+            pid = parent.pid
+            tier = parent.tier
+            seed = parent.seed
+            assumptions = parent.assumptions
+            notes = parent.notes
+
+            def rule(self_, rid, title, floor, design_ref=""):
+                r = Rule(parent, "%s.%s.%s" % (parent.pid, other_pid, rid), "[needs %s: %s] %s" % (other_pid, why, title), floor, design_ref)
+                if rid not in skip:
+                    parent.rules.append(r)
+                return r
+
+            def guarded(self_, rule, fn, *a, **kw):
+                if rule.id.rsplit(".", 1)[-1] in skip:
+                    return None
+                return parent.guarded(rule, fn, *a, **kw)
+
+            def include(self_, *a, **kw):
+                return None  # one level only
+
+        mod = importlib.import_module("fv.props.%s" % other_pid)
+        mod.run(_Sub())
+
     def guarded(self, rule, fn, *a, **kw):
         """run one rule body; an AnchorLost anywhere inside fails that rule closed"""
         try:
